@@ -75,7 +75,7 @@ _LD_TEXT = {
     "C09": "a load result is installed only if no explicit write to the key completed between the load's start and its installation; the last explicit write wins (LoadRace.tla: NoStaleInstall; real cache: LoadHist.tla)",
 }
 for _p in ("C08", "C09"):
-    CHECKS[_p] = loadcheck.run
+    CHECKS[_p] = loadcheck.run if _p == "C09" else seqcheck.run    # C08 = sequential in-flight audit (fold) + concurrent histories
     META[_p] = {
         "engine": "load-race",
         "text": _LD_TEXT[_p],
